@@ -24,6 +24,7 @@ RULE = (
     "non-trivial = anything but value-before-deadline-without-cancel; distinct = distinct tuple"
 )
 RULE += '; the function may raise an Exception whose instance is falsy'
+RULE += "; built-in exception classes (InvalidStateError, RuntimeError, LookupError, AssertionError ...) as the function's outcome"
 LEVEL_TEXT = (
     "Single-fault enumeration: the caller cancellation is injected at every instant of a complete integer time grid "
     "around the function's end and the deadline, for every outcome kind; the oracle is a case analysis on the earliest "
@@ -42,7 +43,17 @@ REQUIRED_CLASSES = ["timeout-first", "cancel-first", "function-first", "tie", "f
 
 KINDS = ["value", "exc", "base", "selfcancel_raise", "selfcancel_task", "ignore"]
 # outcome kinds used by generated cases only (the enumerated grids keep the six above)
-EXTRA_KINDS = ["exc_timeout", "exc_falsy"]
+# "exc_b_<Name>": the function raises a BUILT-IN exception class the wrapper's own plumbing also meets (futures, iterators,
+# assertions): it is the function's outcome like any other exception
+_BUILTIN_EXC = {
+    "InvalidStateError": asyncio.InvalidStateError,
+    "RuntimeError": RuntimeError,
+    "StopAsyncIteration": StopAsyncIteration,
+    "LookupError": LookupError,
+    "AssertionError": AssertionError,
+    "AttributeError": AttributeError,
+}
+EXTRA_KINDS = ["exc_timeout", "exc_falsy", *(f"exc_b_{n}" for n in _BUILTIN_EXC)]
 
 
 class FnTimeout(TimeoutError):
@@ -100,6 +111,7 @@ def _run_timed(case, inject_iter):
     base = FnBase("fn")
     own_timeout = FnTimeout("fn's own timeout")
     falsy = FnFalsy("fn")
+    builtin_exc = _BUILTIN_EXC[kind[6:]]("fn") if kind.startswith("exc_b_") else None
     t_end = max(d, tau, c or 0, (case.get("bg") or {}).get("d", 0)) + e + 3
 
     async def main(loop):
@@ -135,6 +147,8 @@ def _run_timed(case, inject_iter):
                     raise own_timeout
                 if kind == "exc_falsy":
                     raise falsy
+                if builtin_exc is not None:
+                    raise builtin_exc
                 if kind == "base":
                     raise base
                 if kind == "selfcancel_raise":
@@ -270,6 +284,10 @@ def _run_timed(case, inject_iter):
                     expected.append(("FnTimeout (the function's own object)", first))
                     if rk == "exc" and rv is own_timeout and t == first:
                         ok = True
+                elif builtin_exc is not None:
+                    expected.append((f"{type(builtin_exc).__name__} (the function's own object)", first))
+                    if rk == "exc" and rv is builtin_exc and t == first:
+                        ok = True
                 elif kind == "exc_falsy":
                     expected.append(("FnFalsy (the function's own object)", first))
                     if rk == "exc" and rv is falsy and t == first:
@@ -307,6 +325,9 @@ def _run_timed(case, inject_iter):
         out.violate("cleanup", f"C16.cleanup/function-still-running/{sig_kind}", f"{flags}")
     if obs["fn_tasks_alive"]:
         out.violate("cleanup", f"C16.cleanup/tasks-left-running/{sig_kind}", repr(obs["fn_tasks_alive"])[:300])
+    # duration == timeout: either branch is admissible. Whether a function that reaches its end at the very deadline still
+    # observes the cancellation is NOT judged: the unchanged library itself reports TimeoutError for timeout 0 / duration 0
+    # while the function ran to its end (tried as a rule in round 9, withdrawn as over-reach)
     if bg is not None:
         # the overlapping call has its own, independent outcome
         want = ("TimeoutError",) if bg["d"] > tau else (("FnErr",) if bg.get("out") == "exc" else ("bg",))
@@ -350,6 +371,8 @@ def enumerate_cases(tier):
     for d, tau, c in itertools.product([0, 1, 2, 3], [1, 2, 3], [None, 0, 1, 2]):
         yield {"d": d, "steps": 1, "outcome": "exc_timeout", "e": 2, "tau": tau, "c": c}
         yield {"d": d, "steps": 1, "outcome": "exc_falsy", "e": 2, "tau": tau, "c": c}
+    for d, tau, c, name in itertools.product([0, 1, 3], [2], [None, 1], list(_BUILTIN_EXC)):
+        yield {"d": d, "steps": 1, "outcome": f"exc_b_{name}", "e": 2, "tau": tau, "c": c}
     # two overlapping calls of ONE decorated function: an earlier call ends (value / exception / its own timeout) while the
     # judged call is in flight
     for lead, dbg, out_bg, d, tau, c, kind in itertools.product([0.5, 1], [0.25, 1.5], ["value", "exc"], [1, 3], [1, 2], [None, 1.5], KINDS):
